@@ -233,7 +233,8 @@ def c_unify(ctx, case):
                          f"record {rec} for pattern {pat} / target {tgt} binds {lhs}, which is not a "
                          f"declared pattern variable of {sorted(declared)}")
                 break
-            if lhs.name in binds and normal.ac_key(binds[lhs.name]) != normal.ac_key(rhs):
+            # "one value": the SAME value (==), not two spellings that agree up to operand order
+            if lhs.name in binds and not (binds[lhs.name] == rhs):
                 ctx.fail("C16.unify", case, "binds-twice",
                          f"record {rec} binds {lhs.name} to both {binds[lhs.name]} and {rhs}")
                 break
@@ -244,6 +245,12 @@ def c_unify(ctx, case):
                 ctx.fail("C16.unify", case, f"unsound:{mode}",
                          f"pattern {pat} with record {rec} instantiates to {inst}, which is not the "
                          f"target {tgt} (up to reordering/regrouping of sums and products)")
+    # the list of records is the caller's: it is extended in place here (as a caller collecting
+    # the records of several calls does) -- no later call, on any unifier, may see that
+    if isinstance(recs, list):
+        from pymbolic.mapper.unifier import UnificationRecord
+        recs.append(UnificationRecord([(p.Variable("zz_appended_by_the_caller"), p.Variable("zz"))]))
+        ctx.count("result_lists_extended_by_the_caller")
 
 
 # {{{ matchpy bridge
@@ -759,6 +766,7 @@ def workload(ctx):
     else:
         ctx.inconclusive.append("matchpy not importable")
     ctx.floor("unifier_calls", 1500)
+    ctx.floor("result_lists_extended_by_the_caller", 1500)
     ctx.floor("wide_patterns", 40)
     ctx.floor("near_equal_number_pairs", 20)
     ctx.floor("records", 1000)
